@@ -1,0 +1,54 @@
+//go:build verif
+
+package kgo
+
+// Verification contracts (comments only), read by /verif/govc. Compiled only with -tags verif; no code.
+
+// ---- C39: what a consumer selects (the per-call kernels; the histories are not decided) ----
+// filterMetadataAllTopics (regex consumers): a topic is kept only with a positive verdict; a fresh verdict is
+// recorded for every topic not seen before and is positive only if an include expression matched and no exclude
+// expression matched; the exclude expressions are consulted only for topics an include expression matched; the
+// result is a compaction of the input in place (never longer, same backing array).
+//@ func (c *consumer) filterMetadataAllTopics(topics []string) (kept []string)
+//@   prop C39
+//@   site mapupdate bool#0 assert [verdict-recorded-for-the-topic] mapkey == topic && val == want
+//@   site call MatchString#1 assert [excludes-only-narrow-a-match] want
+//@   site call skip#0 assert [skipped-means-unwanted] !want && arg1 == topic
+//@   site call append#0 assert [kept-only-with-a-positive-verdict] want && arg0 == keep
+//@   loop 0 invariant len(keep) <= rangeindex + 1 && sameorigin(keep, topics) && cap(keep) == cap(topics)
+//@   ensures [in-place-compaction] len(kept) <= len(topics) && sameorigin(kept, topics)
+
+// findNewAssignments (direct consumers): a partition found in metadata is selected only when its topic is wanted -
+// for regex consumers the recorded verdict, otherwise a topic configured without explicit partitions - and, for
+// regex consumers, never when the topic is internal; it starts at the configured start offset; explicitly pinned
+// partitions are added with their own offsets; what is already being consumed is removed before the rest is recorded
+// as in use.
+//@ func (d *directConsumer) findNewAssignments() (toUse map[string]map[int32]Offset)
+//@   prop C39
+//@   frozen d.cfg.regex
+//@   site mapupdate Offset#0 assert [only-wanted-topics-never-internal-by-regex] useTopic && !(d.cfg.regex && $load1.isInternal) && val == d.cfg.startOffset && mapkey == int32(partition)
+//@   site mapupdate Offset#1 assert [pinned-partitions-with-their-offsets] mapkey == partition && val == offset
+
+// onlyt: a topic is "configured without partitions" exactly when it is present with an empty partition set.
+//@ func (m mtmps) onlyt(t string) (r bool)
+//@   prop C39
+//@   nopanic
+//@   pure
+//@   ensures r == (m != nil && in(m, t) && len(m[t]) == 0)
+
+// RemoveConsumePartitions (direct, non-regex consumers): the removed partitions' active and buffered fetches are
+// invalidated first (assignInvalidateMatching over exactly the requested partitions), then every requested
+// partition is dropped from what is in use, from the configured topics and from the pinned partitions.
+//@ func (cl *Client) RemoveConsumePartitions(partitions map[string][]int32)
+//@   prop C39
+//@   site call assignPartitions#0 assert [buffered-and-active-fetches-invalidated-first] arg2 == assignInvalidateMatching && arg1 == removeOffsets
+//@   site mapupdate Offset#0 assert [exactly-the-requested-partitions] mapkey == p
+//@   site call remove#0 assert [dropped-from-in-use] arg1 == t && arg2 == p
+//@   site call remove#1 assert [dropped-from-configured] arg1 == t && arg2 == p
+//@   site call delete#1 assert [dropped-from-pinned] arg1 == p
+
+// mtmps.remove: afterwards the partition is not in the set (and an emptied topic is dropped).
+//@ func (m mtmps) remove(t string, p int32)
+//@   prop C39
+//@   nopanic
+//@   ensures [gone] !(in(m, t) && in(m[t], p))
